@@ -237,6 +237,11 @@ func ConstantValuePtr(g Generator, c compile.ConstantValue, t compile.TypeSpec) 
 	case *compile.StringSpec:
 		ptrFunc = fmt.Sprintf("%v.String", g.Import("go.uber.org/thriftrw/ptr"))
 	case *compile.EnumSpec, *compile.TypedefSpec:
+		if !isPrimitiveType(t) {
+			// A typedef of a struct, container or binary: fields of these
+			// types hold the value itself, not a pointer to it.
+			return ConstantValue(g, c, t)
+		}
 		ptrFunc = fmt.Sprintf("_%s_ptr", g.MangleType(t))
 		err := g.EnsureDeclared(
 			`func <.Name>(v <typeReference .Spec>) *<typeReference .Spec> {
